@@ -19,6 +19,7 @@ from __future__ import annotations
 import copy
 
 import core
+from props import c10_client as client
 
 CHEADER = ("From Coq Require Import List.\nImport ListNotations.\n"
            "From TI Require Import model.IterCtor model.IterCtorTie.\nOpen Scope nat_scope.\n")
@@ -48,7 +49,8 @@ def is_nest(c):
 
 
 def is_life(c):
-    return c.get("mode") in ("ctor", "nest")
+    """the families judged outside model/Iter*Tie: ctor, nest (this module) and client (props/c10_client.py)"""
+    return c.get("mode") in ("ctor", "nest", "client")
 
 
 # ----------------------------------------------------------------- generators: ctor
@@ -284,13 +286,15 @@ def jobs(variants, obs, tag):
     if ni:
         out.append(((tag + "n", NHEADER, [ncase_t(variants[k], obs[k]) for k in ni], "ncase", "nbad cases",
                      max(40, -(-len(ni) // 8))), ni))
-    return out
+    return out + client.jobs(variants, obs, tag)
 
 
 # ----------------------------------------------------------------- reporting
 
 
 def describe(c):
+    if client.is_client(c):
+        return client.describe(c)
     if is_ctor(c):
         n = "INDEFINITE" if c["n"] is None else c["n"]
         flt = FAULT_TEXT[c.get("fault") or "none"]
@@ -323,6 +327,8 @@ def describe(c):
 
 
 def what_of(c, r):
+    if client.is_client(c):
+        return client.what_of(c, r)
     if is_ctor(c):
         o = r.get("obj")
         obj = "no object yet" if o is None else (
@@ -345,11 +351,15 @@ def what_of(c, r):
 
 
 def plain(c):
+    if client.is_client(c):
+        return client.plain(c)
     return {k: v for k, v in c.items() if k not in ("enumerate_async", "async_offset")}
 
 
 def shrink(c, fails):
     """greedy; `fails(list of cases) -> list of bool`"""
+    if client.is_client(c):
+        return client.shrink(c, fails)
     cur = copy.deepcopy(plain(c))
     if is_ctor(c):
         dflt = ctor_case(cur["kind"], cur["fault"])
@@ -400,6 +410,7 @@ def histogram(h, nontrivial, variants, obs, signature):
         h.setdefault(k, {})
         h[k][v] = h[k].get(v, 0) + 1
 
+    client.histogram(h, nontrivial, variants, obs, signature)
     for c, r in zip(variants, obs):
         if is_ctor(c):
             inc("family", "ctor")
